@@ -4,6 +4,7 @@ package c07
 
 import (
 	"bytes"
+	"io"
 	"fmt"
 	"math/big"
 	"sync"
@@ -78,7 +79,13 @@ func journal(parts ...[]byte) []byte {
 }
 
 func senderSetup(s *hpke.Sender, a setupArgs, ikmE []byte) (enc []byte, sealer hpke.Sealer, err error, p *lib.Panic) {
-	rnd := bytes.NewReader(ikmE)
+	// the randomness source delivers ikmE whole or - every other time - in
+	// short pieces, like a pipe or a connection would: io.Reader allows it
+	var rnd io.Reader = bytes.NewReader(ikmE)
+	if len(ikmE) > 0 && ikmE[len(ikmE)-1]&1 == 1 {
+		rnd = &shortReader{b: ikmE}
+		lib.Count("sender:randomness-in-short-reads")
+	}
 	p = lib.Try("hpke.Sender.Setup:"+modeNames[a.mode], journal(ikmE, a.psk, a.pskID), func() {
 		switch a.mode {
 		case ref.ModeBase:
@@ -315,7 +322,14 @@ func edgePrivateKey(r *lib.Rng, k kemDesc) []byte {
 // importKey builds a key pair from a serialized private key through circl's
 // UnmarshalBinaryPrivateKey and checks the public key against the reference.
 func importKey(scheme kem.Scheme, k kemDesc, skb []byte) (keyPair, error) {
-	sk, err := scheme.UnmarshalBinaryPrivateKey(skb)
+	// the key is imported from a scratch buffer that the caller wipes right
+	// afterwards (as a caller handling key material does): the key object must
+	// not look into it any more
+	buf := lib.Clone(skb)
+	sk, err := scheme.UnmarshalBinaryPrivateKey(buf)
+	for i := range buf {
+		buf[i] = 0
+	}
 	if err != nil {
 		return keyPair{}, err
 	}
@@ -750,4 +764,26 @@ func runCell(c cellID, ord, draw int) {
 		}
 		try("mode", modeNames[c.mode]+"-vs-"+modeNames[m2], R.sk, info, a)
 	}
+}
+
+// shortReader returns its bytes in pieces of 1..5 octets.
+type shortReader struct {
+	b []byte
+	i int
+}
+
+func (r *shortReader) Read(p []byte) (int, error) {
+	if r.i >= len(r.b) {
+		return 0, io.EOF
+	}
+	n := 1 + (r.i*7+len(r.b))%5
+	if n > len(p) {
+		n = len(p)
+	}
+	if n > len(r.b)-r.i {
+		n = len(r.b) - r.i
+	}
+	copy(p, r.b[r.i:r.i+n])
+	r.i += n
+	return n, nil
 }
